@@ -19,9 +19,10 @@ def main():
     hc = os.path.join(HERE, "hooks_commits.txt")
     if os.path.exists(hc):
         hooks_commits = [l.split()[0] for l in open(hc) if l.strip() and not l.startswith("#")]
+    claimed = set(l.strip() for l in open(os.path.join(HERE, "claimed.txt")) if l.strip() and not l.startswith("#"))
     for pid in ids:
         path = os.path.join(HERE, "props", pid + ".py")
-        if not os.path.exists(path):
+        if pid not in claimed or not os.path.exists(path):
             na.append(dict(property_id=pid, reason=NA_REASONS.get(pid, "not claimed yet: model/proofs/tie for this property are not built in this revision (planned in DESIGN.md section 5)")))
             continue
         m = importlib.import_module("props." + pid)
